@@ -20,7 +20,7 @@ RULE = ("(a) is_address_valid() compared with the reference predicate for all 65
         "type) and the master's lease table may change only on address requests and releases. "
         "Non-trivial: the frame reached update(); distinct = (role, level, "
         "type, length, destination class, origin class).")
-RULE += (" Later rounds added: every transmission must be explained by a received frame, the lease table may only change on requests/releases, node address and pipes are preserved, answer-worthy frames followed by frames that must be discarded, fragment pairs with system types, masters with exhausted slots / a table loaded from JSON, relaying nodes., nodes whose multicast level was re-assigned, complete fragment streams of 2..9 fragments, and the clause that whatever the application reads came from a received frame (queued_frames_were_received).")
+RULE += (" Later rounds added: every transmission must be explained by a received frame, the lease table may only change on requests/releases, node address and pipes are preserved, answer-worthy frames followed by frames that must be discarded, fragment pairs with system types, masters with exhausted slots / a table loaded from JSON, relaying nodes, nodes whose multicast level was re-assigned, complete fragment streams of 2..9 fragments, and the clause that whatever the application reads came from a received frame (queued_frames_were_received).")
 REQUIRED = {"predicate": 65537, "update_returns": 8000, "bounded_time": 8000,
             "invalid_dropped": 1500, "transmissions_explained": 8000, "lease_table_explained": 1500,
             "address_preserved": 8000, "queued_frames_were_received": 2000}
